@@ -26,6 +26,7 @@
 #    define SBEPP_DISABLE_ASSERTS
 #endif
 
+#include <algorithm>
 #include <csetjmp>
 namespace c06
 {
@@ -369,13 +370,25 @@ static void fits(const json& v)
             = static_cast<char*>(c06::g_fault_addr) - p0; // region offset
         cs["fault_offset"] = off;
         cs["fault_view_offset"] = off - static_cast<std::ptrdiff_t>(start);
+        // which read was it?  A read of w bytes at o faults at max(o, total).
+        //  - a compiled scalar field of a visited block whose wire blockLength
+        //    is smaller than the compiled extent (vector: freads)
+        //  - the <data> length prefix that does not fit (vector: why/at/lenw)
         std::string what;
-        if(why == "dlen" && off >= static_cast<std::ptrdiff_t>(at)
-           && off < static_cast<std::ptrdiff_t>(at) + 8)
+        const std::ptrdiff_t tot = static_cast<std::ptrdiff_t>(total);
+        for(const auto& r : v["freads"])
+        {
+            const std::ptrdiff_t o = r["off"].get<std::ptrdiff_t>();
+            const std::ptrdiff_t w = r["w"].get<std::ptrdiff_t>();
+            if(o + w > tot && off == std::max(o, tot))
+                what = "field-beyond-wire-block";
+        }
+        const std::ptrdiff_t lenw = v["lenw"].get<std::ptrdiff_t>();
+        if(what.empty() && why == "dlen"
+           && off == std::max(static_cast<std::ptrdiff_t>(at), tot)
+           && off < static_cast<std::ptrdiff_t>(at) + lenw)
             what = "dlen";
-        else if(shortb)
-            what = "field-beyond-wire-block";
-        else
+        if(what.empty())
             what = "other-" + (why.empty() ? std::string("valid") : why);
         rep.mismatch(
             "fits/read-past-n/" + what + "/" + vkind + "/" + cor,
